@@ -184,6 +184,16 @@ class IrToPythonCompiler:
                 self.emit("return value - base")
             self.emit("return value")
 
+        # Round to single precision:
+        self.emit("@staticmethod")
+        with self.func_def("to_f32(value):"):
+            self.emit("try:")
+            with self.indented():
+                self.emit('return struct.unpack("f", struct.pack("f", value))[0]')
+            self.emit("except OverflowError:")
+            with self.indented():
+                self.emit("return math.copysign(math.inf, value)")
+
         # More C like integer divide
         self.emit("@staticmethod")
         with self.func_def("idiv(x, y):"):
@@ -404,6 +414,7 @@ class IrToPythonCompiler:
                     f"{ins.name} = rt.correct({ins.name}, {ins.ty.bits}, "
                     + f"{ins.ty.signed})"
                 )
+            self.round_f32(ins)
         elif isinstance(ins, ir.Binop):
             self.gen_binop(ins)
         elif isinstance(ins, ir.Cast):
@@ -473,6 +484,7 @@ class IrToPythonCompiler:
             self.emit(f"{ins.name} = int({ins.src.name})")
         elif ins.ty in [ir.f32, ir.f64]:
             self.emit(f"{ins.name} = float({ins.src.name})")
+            self.round_f32(ins)
         else:  # pragma: no cover
             raise NotImplementedError(str(ins))
 
@@ -498,6 +510,12 @@ class IrToPythonCompiler:
             bits = ins.ty.bits
             signed = ins.ty.signed
             self.emit(f"{ins.name} = rt.correct({ins.name}, {bits}, {signed})")
+        self.round_f32(ins)
+
+    def round_f32(self, ins):
+        """Values of type f32 are kept rounded to single precision."""
+        if ins.ty is ir.f32:
+            self.emit(f"{ins.name} = rt.to_f32({ins.name})")
 
     def gen_load(self, ins):
         address = self.fetch_value(ins.address)
@@ -528,6 +546,7 @@ class IrToPythonCompiler:
         else:
             value = str(ins.value)
         self.emit(f"{ins.name} = {value}")
+        self.round_f32(ins)
 
     def _fetch_callee(self, callee):
         """Retrieves a callee and puts it into _fptr variable"""
